@@ -1,6 +1,6 @@
 """Engine module utilities."""
 
-from typing import Any, Union
+from typing import Any, List, Union
 
 import numpy as np
 import pandas as pd
@@ -27,13 +27,29 @@ def numpy_pandas_coercible(series: pd.Series, type_: Any) -> pd.Series:
     from pandera.engines import pandas_engine
 
     data_type = pandas_engine.Engine.dtype(type_)
+    null_coercible: List[bool] = []
+
+    def _null_coercible() -> bool:
+        # a missing value stays missing in every type that can hold one
+        if not null_coercible:
+            try:
+                coerced = data_type.coerce(pd.Series([None], dtype=object))
+                null_coercible.append(bool(coerced.isna().all()))
+            except Exception:  # pylint:disable=broad-except
+                null_coercible.append(False)
+        return null_coercible[0]
 
     def _coercible(x):
         try:
             data_type.coerce_value(x)
             return True
         except Exception:  # pylint:disable=broad-except
-            return False
+            missing = pd.isna(x)
+            return (
+                isinstance(missing, (bool, np.bool_))
+                and bool(missing)
+                and _null_coercible()
+            )
 
     return series.map(_coercible)
 
